@@ -418,8 +418,9 @@ Inductive op :=
 | OGet (x : ident) | OContains (x : ident) | OIter | OLen | OKeys | OItems | OAsDict | OVol
 | OChange (nc : list (ident * Q))
 | OEq (other : scope)
-| OVolX (envs : list (list (ident * Q))).   (* get_volatile_parameters(), every dependency expression evaluated in
+| OVolX (envs : list (list (ident * Q)))    (* get_volatile_parameters(), every dependency expression evaluated in
                                               each of the given environments of constants *)
+| OOverwrite (kv : list (ident * Q)).       (* Scope.overwrite: continue on MappedScope(self, {name: Expression(value)}) *)
 
 Inductive obs :=
 | BVal (r : result Q)
@@ -429,7 +430,8 @@ Inductive obs :=
 | BItems (r : result (list (ident * Q)))
 | BChange (warned : bool) (eq_rebuilt : bool) (hash_eq : bool)
 | BEq (eq : bool) (hash_eq : bool)
-| BVolX (r : result (list (ident * list (option Q)))).
+| BVolX (r : result (list (ident * list (option Q))))
+| BOver.
 
 Definition eval_at (envs : list (list (ident * Q))) (ve : list (ident * expr)) : list (ident * list (option Q)) :=
   map (fun xe => (fst xe, map (fun env => eval (lookup env) (snd xe)) envs)) ve.
@@ -442,6 +444,12 @@ Fixpoint rebuild (s : scope) (nc : list (ident * Q)) : scope :=
   | SRange i n v => SRange (rebuild i nc) n v
   | SJoint l => SJoint (map (fun p => (fst p, rebuild (snd p) nc)) l)
   end.
+
+(* Scope.overwrite(to_overwrite): a NEW MappedScope object (fresh memoisation fields) over the current object (which
+   keeps the state of its fields), every value wrapped into a constant expression *)
+Definition const_mapping (kv : list (ident * Q)) : list (ident * expr) := map (fun p => (fst p, EConst (snd p))) kv.
+Definition overwrite (s : scope) (c : cst) (kv : list (ident * Q)) : scope * cst :=
+  (SMapped s (const_mapping kv), CNode [] None None [c]).
 
 Definition step (st : scope * cst) (o : op) : obs * (scope * cst) :=
   let '(s, c) := st in
@@ -458,6 +466,7 @@ Definition step (st : scope * cst) (o : op) : obs * (scope * cst) :=
                   (BChange (ch_warned r) (scope_eqb (ch_scope r) (rebuild s nc)) true, (ch_scope r, ch_cst r))
   | OEq other => (BEq (scope_eqb s other) (scope_eqb s other), st)
   | OVolX envs => let '(r, c') := volx s c in (BVolX (rmap (eval_at envs) r), (s, c'))
+  | OOverwrite kv => (BOver, overwrite s c kv)
   end.
 
 Fixpoint run (st : scope * cst) (ops : list op) : list obs :=
